@@ -29,7 +29,7 @@ type Roles struct {
 
 	WatchEventT *types.Named // common.WatchEvent
 
-	SeqRegion    *fnRegion       // the sequencer goroutine's function and the same-package helpers it calls
+	SeqRegion    *fnRegion     // the sequencer goroutine's function and the same-package helpers it calls
 	Sink         *ssa.Function // stores a non-nil *WatchEvent into the slot array
 	SinkRevParam int           // signature index of the revision parameter of Sink
 	SinkValidPar int
